@@ -90,9 +90,13 @@ impl CdnBootstrap {
                 continue;
             }
 
-            // Extract CDN servers from hosts field
-            let servers = Self::parse_cdn_hosts(&cdn_entry.hosts);
-            bootstrap.servers.extend(servers);
+            // Extract CDN servers from hosts field. A host already discovered (earlier
+            // row, or twice in this one) is not listed again, as in preferred_hosts below
+            for server in Self::parse_cdn_hosts(&cdn_entry.hosts) {
+                if !bootstrap.servers.iter().any(|s| s.host == server.host) {
+                    bootstrap.servers.push(server);
+                }
+            }
 
             // Cache path for this CDN entry
             if !cdn_entry.path.is_empty() {
